@@ -277,6 +277,48 @@ def rule_OD5(rep, prog, g):
         rep.unknown(rid, "fewer than 2 continuation callouts found (%d)" % n)
 
 
+def rule_MP6(rep, prog, g):
+    from .C03 import root_ptr
+    rid = rep.rule("C07-MP6", "_dispatch_group_wake hands EVERY notification of the captured list to its queue: the successor of a node that is not the captured tail "
+                   "is obtained by waiting for the concurrent enqueuer to finish linking it (a NULL do_next there means 'not linked yet', not 'end of list'), and "
+                   "the queue reference taken at registration is dropped only after the block was submitted to that queue", floor=2)
+    fn = prog.fn("_dispatch_group_wake")
+    rep.saw(fn)
+    nxt = [l for l in fn.all_insts() if l.op == "load" and "do_next" in prog.fields(l)]
+    waits = calls_named(fn, "_dispatch_wait_for_enqueuer")
+    if not nxt:
+        rep.unknown(rid, "no do_next load in _dispatch_group_wake")
+    for l in nxt:
+        ok = False
+        for u in fn.users(l):
+            w = u
+            if w.op in ("inttoptr", "bitcast"):
+                us = fn.users(w)
+            else:
+                us = [w]
+            for t in us:
+                if t.op == "icmp" and t.d["pred"] in ("eq", "ne") and any(o[0] == "n" or (o[0] == "c" and o[1] == 0) for o in t.ops):
+                    for br, st, sf in paths.branch_edges(fn, t):
+                        tgt = st if t.d["pred"] == "eq" else sf
+                        if any(wc.block.id == tgt or wc.block.id in fn.reach_from_block(tgt, avoid=frozenset([l.block.id])) for wc in waits):
+                            ok = True
+        rep.require(rid, ok, l.loc, fn.name, "notify-list-walk-stops-at-unlinked-node",
+                    "_dispatch_group_wake reads the successor of a notification node without waiting when it is still NULL: a node whose enqueuer has already "
+                    "swapped itself in as tail but not yet linked it ends the walk early, and the notifications behind it - already removed from the group - "
+                    "are never submitted", sample={"load": l.loc, "waits": len(waits)})
+    asyncs = calls_named(fn, "_dispatch_continuation_async")
+    rels = calls_named(fn, ("_dispatch_release", "dispatch_release", "_os_object_release_internal"))
+    for r in rels:
+        q_ = root_ptr(fn, r.ops[0])
+        li = fn.inst(q_) if q_[0] == "i" else None
+        if li is None or li.op != "load" or "dc_data" not in prog.fields(li):
+            continue
+        ok = any(root_ptr(fn, a.ops[0]) == q_ and fn.dominates(a, r) for a in asyncs)
+        rep.require(rid, ok, r.loc, fn.name, "notify-queue-released-before-submit",
+                    "_dispatch_group_wake drops the reference on a notification's queue before submitting the block to it: when that was the last reference "
+                    "the block is pushed onto a freed queue and is lost (or the process crashes)", sample={"release": r.loc})
+
+
 def run(rep, tier="quick", srcdir=None, only=None):
     prog, units = load(UNITS, tier, srcdir)
     rep.units = units
@@ -293,6 +335,8 @@ def run(rep, tier="quick", srcdir=None, only=None):
         rule_MP4(rep, prog, g)
     if want("C07-OD5"):
         rule_OD5(rep, prog, g)
+    if want("C07-MP6"):
+        rule_MP6(rep, prog, g)
     if want("C07-FK"):
         from .sync_common import rule_futex_key
         rule_futex_key(rep, "C07", prog)
